@@ -487,6 +487,8 @@ func (w *world) step(ca *fixture.CA, op, newKeyKind string, viaAPI bool, old *x5
 			return []row{{line, "refuse:expired"}}, nil
 		case strings.Contains(err.Error(), "not yet valid"):
 			return []row{{line, "refuse:notyetvalid"}}, nil
+		case strings.Contains(err.Error(), "not longer than the backdate"):
+			return []row{{line, "refuse:short"}}, nil
 		}
 		return []row{{line, "refuse:other"}}, nil
 	case len(nchain) == 0:
